@@ -16,6 +16,9 @@ CONSTANTS
   MaxUpdates = 0
   MaxCalls = 2
   NPages = 2
+  ListenOwns = TRUE
+  ResubRace = TRUE
+  GenCheck = TRUE
   ModernUnsub = FALSE
   ForeignUnsub = FALSE
   Stepwise = TRUE
